@@ -20,6 +20,7 @@ type CEnv struct {
 	bound map[string]Val
 	self  *Val
 	pkgPath string
+	qdepth  int // number of enclosing quantifiers (terms may contain bound variables)
 }
 
 type clausePart struct {
@@ -293,6 +294,7 @@ func (ce *CEnv) eval(e Expr) Val {
 			}
 			n := fv.q.fresh("q." + qv.Name)
 			sub.bound[qv.Name] = Val{T: t, S: n}
+			sub.qdepth++
 			decl = append(decl, "("+n+" "+fv.sortOf(t)+")")
 			if w := fv.wf(n, t, nil); w != "true" && qv.Type != "" {
 				guards = append(guards, w)
@@ -493,7 +495,7 @@ func (ce *CEnv) fieldOf(x Val, name string, must bool) (Val, bool) {
 					cfail("big.Int by value")
 				}
 				k := fv.fieldKey(p.Elem(), st, i)
-				return Val{T: f.Type(), S: "(select " + fv.heapGet(ce.st, k) + " " + x.S + ")"}, true
+				return ce.wfRead(Val{T: f.Type(), S: "(select " + fv.heapGet(ce.st, k) + " " + x.S + ")"}), true
 			}
 		}
 		// promoted through embedded pointer/struct fields
@@ -527,6 +529,26 @@ func (ce *CEnv) fieldOf(x Val, name string, must bool) (Val, bool) {
 		}
 	}
 	return Val{}, false
+}
+
+// wfRead: a value read from the heap in a specification is a well-formed value of its Go type (ranges of machine integers
+// etc.), exactly as for loads in the code. Inside quantifiers the fact is attached as a guard by the caller instead.
+func (ce *CEnv) wfRead(v Val) Val {
+	if ce.qdepth > 0 || ce.fv.mode.BV {
+		return v
+	}
+	key := "wf:" + v.S
+	if ce.fv.axiomsDone[key] {
+		return v
+	}
+	switch v.T.Underlying().(type) {
+	case *types.Basic, *types.Slice:
+		if w := ce.fv.wf(v.S, v.T, nil); w != "true" {
+			ce.fv.axiomsDone[key] = true
+			ce.fv.q.assume(w)
+		}
+	}
+	return v
 }
 
 func (ce *CEnv) selector(x *ESel) Val {
@@ -572,7 +594,7 @@ func (ce *CEnv) index(base, idx Val) Val {
 		if m.BV {
 			off = "(bvadd (soff " + base.S + ") " + i + ")"
 		}
-		return Val{T: u.Elem(), S: "(select (select " + fv.heapGet(ce.st, k) + " (sbase " + base.S + ")) " + off + ")"}
+		return ce.wfRead(Val{T: u.Elem(), S: "(select (select " + fv.heapGet(ce.st, k) + " (sbase " + base.S + ")) " + off + ")"})
 	case *types.Array:
 		return Val{T: u.Elem(), S: "(select " + base.S + " " + ce.idxTerm(idx) + ")"}
 	case *types.Basic:
@@ -908,18 +930,33 @@ func (ce *CEnv) call(x *ECall) Val {
 	case "typeIs":
 		// typeIs(x, T)
 		v := arg(0)
-		tn, ok := x.Args[1].(*EIdent)
-		if !ok {
+		var tname string
+		switch tn := x.Args[1].(type) {
+		case *EIdent:
+			tname = tn.Name
+		case *ESel:
+			if id, ok := tn.X.(*EIdent); ok {
+				tname = id.Name + "." + tn.Name
+			}
+		}
+		if tname == "" {
 			cfail("typeIs needs a type name")
 		}
-		t := ce.typeByName(strings.TrimPrefix(tn.Name, "ptr_"))
+		t := ce.typeByName(strings.TrimPrefix(tname, "ptr_"))
 		if t == nil {
-			cfail("unknown type %s", tn.Name)
+			cfail("unknown type %s", tname)
 		}
-		if strings.HasPrefix(tn.Name, "ptr_") {
+		if strings.HasPrefix(tname, "ptr_") {
 			t = types.NewPointer(t)
 		}
 		return boolVal(fmt.Sprintf("(= (itag %s) %d)", v.S, fv.typeTag(t)))
+	case "flagSet":
+		v := arg(0)
+		st, ok := v.T.Underlying().(*types.Struct)
+		if !ok || st.NumFields() != 1 {
+			cfail("flagSet of %v", v.T)
+		}
+		return boolVal("(= (" + fv.fieldAcc(v.T, st, 0) + " " + v.S + ") " + m.litI(1, 32) + ")")
 	case "concat":
 		a, b := arg(0), arg(1)
 		return Val{T: types.Typ[types.String], S: fv.strConcat(a.S, b.S)}
@@ -1079,6 +1116,7 @@ func (ce *CEnv) specCall(sf *SpecFn, args []Expr) Val {
 			for i, p := range sf.Params {
 				n := fv.q.fresh("ax." + p.Name)
 				sub.bound[p.Name] = Val{T: vals[i].T, S: n}
+				sub.qdepth++
 				decl = append(decl, "("+n+" "+fv.sortOf(vals[i].T)+")")
 			}
 			t := sub.boolTerm(sub.eval(ax.E))
@@ -1126,10 +1164,116 @@ func (ce *CEnv) pureCall(f *types.Func, recv *Val, args []Expr) Val {
 	rt := sig.Results().At(0).Type()
 	name := pureFnName(f)
 	fv.q.declareFun(name, sorts, fv.sortOf(rt))
+	fv.pureRangeAxiom(name, sorts, rt)
 	if len(terms) == 0 {
 		return Val{T: rt, S: name}
 	}
-	return Val{T: rt, S: "(" + name + " " + strings.Join(terms, " ") + ")"}
+	app := "(" + name + " " + strings.Join(terms, " ") + ")"
+	res := Val{T: rt, S: app}
+	if recv != nil && ce.qdepth == 0 {
+		if _, isI := recv.T.Underlying().(*types.Interface); isI {
+			fv.pureApps = append(fv.pureApps, pureApp{obj: f, recv: recv.S, nargs: len(args), res: res})
+		}
+	}
+	// function axiom: the (verified or trusted) contract of a pure function holds for this application
+	if ce.qdepth == 0 && !fv.axiomsDone["app:"+app] {
+		fv.axiomsDone["app:"+app] = true
+		var fc *FuncContract
+		if f.Pkg() != nil {
+			key := f.Name()
+			if r := sig.Recv(); r != nil {
+				if n, ok := derefNamed(r.Type()); ok {
+					if _, isI := n.Underlying().(*types.Interface); isI {
+						fc = fv.ifaceContract(n, f.Name())
+						key = ""
+					} else {
+						key = n.Obj().Name() + "." + f.Name()
+					}
+				}
+			}
+			if key != "" {
+				fc = fv.eng.cs.Funcs[f.Pkg().Path()+"#"+key]
+			}
+		}
+		if fc != nil && fc.Pure && len(fc.Ensures) > 0 {
+			names := map[string]Val{}
+			if recv != nil && fc.RecvName != "" {
+				names[fc.RecvName] = *recv
+			}
+			off := 0
+			if recv != nil {
+				off = 1
+			}
+			for i, p := range fc.Params {
+				if off+i < len(terms) {
+					names[p.Name] = Val{T: sig.Params().At(i).Type(), S: terms[off+i]}
+				}
+			}
+			if len(fc.Results) > 0 {
+				names[fc.Results[0].Name] = res
+			}
+			sub := fv.newCEnv(names, ce.st, ce.st)
+			sub.pkg = f.Pkg()
+			sub.pkgPath = fc.PkgPath
+			var pre, post []string
+			ok := true
+			func() {
+				defer func() {
+					if r := recover(); r != nil {
+						if _, isU := r.(unsupportedErr); isU {
+							ok = false
+							return
+						}
+						panic(r)
+					}
+				}()
+				for _, c := range fc.Requires {
+					for _, p := range sub.evalClause(c) {
+						pre = append(pre, p.term)
+					}
+				}
+				for _, c := range fc.Ensures {
+					for _, p := range sub.evalClause(c) {
+						post = append(post, p.term)
+					}
+				}
+			}()
+			if ok && len(post) > 0 {
+				fv.q.assume("(=> " + andN(pre) + " " + andN(post) + ")")
+				fv.note("function axiom: contract of pure " + f.FullName() + " assumed for its applications in specifications")
+			}
+		}
+	}
+	return res
+}
+
+// pureRangeAxiom: results of pure functions are well-formed values of their Go type.
+func (fv *FnVerifier) pureRangeAxiom(name string, sorts []string, rt types.Type) {
+	if fv.axiomsDone["range:"+name] {
+		return
+	}
+	fv.axiomsDone["range:"+name] = true
+	var decl, vars []string
+	for i, s := range sorts {
+		v := fmt.Sprintf("a%d", i)
+		decl = append(decl, "("+v+" "+s+")")
+		vars = append(vars, v)
+	}
+	app := name
+	if len(vars) > 0 {
+		app = "(" + name + " " + strings.Join(vars, " ") + ")"
+	}
+	// references returned by pure functions denote objects that existed when the verified function was entered
+	// (a pure function is a function of its arguments; it cannot return one of the caller's fresh local objects)
+	w := fv.wf(app, rt, &State{alloc: "alloc0"})
+	if w == "true" {
+		return
+	}
+	if len(vars) == 0 {
+		fv.q.assume(w)
+		return
+	}
+	fv.q.assume("(forall (" + strings.Join(decl, " ") + ") (! " + w + " :pattern (" + app + ")))")
 }
 
 func pureFnName(f *types.Func) string {
